@@ -365,7 +365,7 @@ def locate(src, selector, lo=0, hi=None):
 # --------------------------------------------------------------------------
 
 DROP_ATTRS = ("derive", "trace", "educe", "automatically_derived", "builtin", "allow", "inline", "must_use", "cold", "doc",
-              "repr", "default", "error", "diagnostic", "expect", "typed", "clap", "command", "arg")
+              "repr", "default", "error", "diagnostic", "expect", "typed", "clap", "command", "arg", "from")
 
 
 R2_LOG = []   # texts dropped by R2 (cfg(feature = "exp-..."), cfg(test)) during the current process() call, for the evidence
